@@ -40,6 +40,7 @@ type SolverStats struct {
 	PortfolioS float64
 	Winners    map[string]int
 	CrossOK    int
+	Fallbacks  int
 }
 
 type Solver struct {
@@ -60,6 +61,8 @@ var z3Path = "z3"
 // stack; it is several times faster than z3's incremental core on the
 // modular 16-bit window arithmetic of these queries and still supports
 // push/pop and get-value.
+var hybridFastMs = 150
+
 var checkSatCmd = "(check-sat-using qfaufbv)\n"
 
 func NewSolver(timeoutMs int) *Solver {
@@ -172,7 +175,16 @@ func (s *Solver) Check(pc []*Term, extra *Term, want map[string]*Term) (Result, 
 		s.em.Emit(&sb, extra)
 		fmt.Fprintf(&sb, "(assert %s)\n", extra.ref())
 	}
-	sb.WriteString(checkSatCmd)
+	mode := os.Getenv("GOSMT_MODE")
+	hybrid := mode == "" || mode == "hybrid"
+	switch {
+	case mode == "inc":
+		sb.WriteString("(check-sat)\n")
+	case hybrid:
+		fmt.Fprintf(&sb, "(set-option :timeout %d)\n(check-sat)\n", hybridFastMs)
+	default:
+		sb.WriteString(checkSatCmd)
+	}
 	s.send(sb.String())
 	limit := time.Duration(s.timeout)*time.Millisecond + 10*time.Second
 	line, ok := s.readLine(limit)
@@ -184,6 +196,21 @@ func (s *Solver) Check(pc []*Term, extra *Term, want map[string]*Term) (Result, 
 		s.Close()
 		s.Stats.Unknown++
 		return Unknown, nil
+	}
+	if hybrid && line == "unknown" {
+		// the incremental core gave up quickly: run the tactic on the same stack
+		s.Stats.Fallbacks++
+		s.send(fmt.Sprintf("(set-option :timeout %d)\n%s", s.timeout, checkSatCmd))
+		line, ok = s.readLine(limit)
+		for ok && (line == "" || strings.HasPrefix(line, "(warning") || strings.HasPrefix(line, "WARNING")) {
+			line, ok = s.readLine(limit)
+		}
+		if !ok {
+			s.dead = true
+			s.Close()
+			s.Stats.Unknown++
+			return Unknown, nil
+		}
 	}
 	var r Result
 	switch line {
